@@ -35,18 +35,22 @@ Files(S, id) == SeqToSet(Fdt(S, id).files)
 IsRS(sc)    == sc \in {5, 129}
 SecOfTick(S, t) == IF S.cfg.tick_us >= 1000000 THEN t * (S.cfg.tick_us \div 1000000) ELSE t \div (1000000 \div S.cfg.tick_us)
 
-\* delivered symbols of object o / FDT instance id among the intact pushed packets
-SymsObj(S, P, o, b) == {Pk(S, i).esi : i \in {j \in P : Pk(S, j).k = "obj" /\ Pk(S, j).o = o /\ Pk(S, j).sbn = b}}
-SymsFdt(S, P, id, b) == {Pk(S, i).esi : i \in {j \in P : Pk(S, j).k = "fdt" /\ Pk(S, j).id = id /\ Pk(S, j).sbn = b}}
-BlockOk(sc, k, par, syms) == IF IsRS(sc) THEN Cardinality(syms \cap 0..(k + par - 1)) >= k ELSE 0..(k - 1) \subseteq syms
+\* delivered (SBN, ESI) pairs of object o / FDT instance id among the intact pushed packets (built once per question,
+\* membership is then logarithmic: objects of thousands of blocks are judged in O(symbols))
+PairsObj(S, P, o)  == {<<Pk(S, i).sbn, Pk(S, i).esi>> : i \in {j \in P : Pk(S, j).k = "obj" /\ Pk(S, j).o = o}}
+PairsFdt(S, P, id) == {<<Pk(S, i).sbn, Pk(S, i).esi>> : i \in {j \in P : Pk(S, j).k = "fdt" /\ Pk(S, j).id = id}}
+\* decode rule of the property: a Reed-Solomon block needs any k of its k + par symbols, every other scheme is judged
+\* on its source symbols only
+BlockOk(sc, k, par, b, G) == IF IsRS(sc) THEN Cardinality({x \in 0..(k + par - 1) : <<b, x>> \in G}) >= k
+                             ELSE \A x \in 0..(k - 1) : <<b, x>> \in G
 
 ObjRecoverable(S, P, o) ==
-  LET ob == SObj(S, o) L == ob.L E == ob.E B == ob.B IN
+  LET ob == SObj(S, o) L == ob.L E == ob.E B == ob.B G == PairsObj(S, P, o) IN
   IF L = 0 THEN \E i \in P : Pk(S, i).k = "obj" /\ Pk(S, i).o = o
-  ELSE \A b \in 0..(N(L, E, B) - 1) : BlockOk(ob.scheme, BlockSyms(L, E, B, b), ob.par, SymsObj(S, P, o, b))
+  ELSE \A b \in 0..(N(L, E, B) - 1) : BlockOk(ob.scheme, BlockSyms(L, E, B, b), ob.par, b, G)
 FdtRecoverable(S, P, id) ==
-  LET f == Fdt(S, id) L == f.L E == S.cfg.E B == S.cfg.B IN
-  \A b \in 0..(N(L, E, B) - 1) : BlockOk(S.cfg.scheme, BlockSyms(L, E, B, b), S.cfg.par, SymsFdt(S, P, id, b))
+  LET f == Fdt(S, id) L == f.L E == S.cfg.E B == S.cfg.B G == PairsFdt(S, P, id) IN
+  \A b \in 0..(N(L, E, B) - 1) : BlockOk(S.cfg.scheme, BlockSyms(L, E, B, b), S.cfg.par, b, G)
 Recoverable(S, P, o) == ObjRecoverable(S, P, o) /\ \E id \in FdtIds(S) : o \in Files(S, id) /\ FdtRecoverable(S, P, id)
 
 -----------------------------------------------------------------------------
@@ -55,7 +59,8 @@ NewMon(e) ==
     W |-> <<>>,                 \* writer id -> [o, st, len, ans, end, exact]
     pushed |-> {}, ordered |-> TRUE, lasti |-> 0, npush |-> 0, mutated |-> FALSE, explicitOps |-> FALSE,
     fdtrx |-> {}, fdtoff |-> <<>>, attach |-> <<>>, tFdtDone |-> -1, tFirstObj |-> -1, ne |-> 0,
-    slept |-> FALSE, dead |-> FALSE ]
+    slept |-> FALSE, dead |-> FALSE,
+    lastAct |-> <<>>, lastFdt |-> <<>> ]     \* monotonic ms of the last packet pushed for each object / FDT instance id
 
 DefaultWriter(m) == m.w.ans = <<>> /\ m.w.open_fail = <<>> /\ m.w.write_fail = <<>>
 WritersOf(m, o) == {w \in DOMAIN m.W : m.W[w].o = o}
@@ -184,6 +189,10 @@ PushStep(S, m, e) ==
                  !.ordered = @ /\ (~OwnPush(m, e) \/ e.i >= m.lasti),
                  !.lasti = IF OwnPush(m, e) THEN e.i ELSE @, !.npush = @ + 1,
                  !.dead = e.res = "panic",
+                 !.lastAct = IF OwnPush(m, e) /\ p.k = "obj" /\ Has(e, "ms")
+                             THEN [x \in DOMAIN @ \cup {p.o} |-> IF x = p.o THEN e.ms ELSE @[x]] ELSE @,
+                 !.lastFdt = IF OwnPush(m, e) /\ p.k = "fdt" /\ Has(e, "ms")
+                             THEN [x \in DOMAIN @ \cup {p.id} |-> IF x = p.id THEN e.ms ELSE @[x]] ELSE @,
                  !.tFdtDone = IF @ = -1 /\ (\E j \in 1..Len(e.cb) : e.cb[j].k = "fdtrx") THEN e.ts ELSE @,
                  !.tFirstObj = IF @ = -1 /\ intact /\ p.k = "obj" THEN e.ts ELSE @,
                  !.ne = IF Has(e, "st") THEN e.st.ne ELSE @]
@@ -249,12 +258,28 @@ BatchChecks(S, m, e) ==
 
 \* after a cleanup with every timeout elapsed nothing is left (C17)
 CleanupChecks(S, m, e) ==
-  IF ~(Has(e, "st") /\ m.slept /\ m.rcfg.obj_to = 0) THEN <<>> ELSE
-  << <<"C17", "stalled-objects-not-released-by-cleanup", e.st.n = 0, e.st.n>>,
-     <<"C17", "unfinished-fdt-instances-not-released-by-cleanup",
+  IF ~Has(e, "st") THEN <<>> ELSE
+  \* (a) every object / unfinished FDT instance for which no packet was pushed during more than the object time-out
+  \*     (monotonic clock read after the push returned and before cleanup was called, 2 ms of margin) is released
+  (IF m.rcfg.obj_to < 0 \/ ~Has(e, "ms") \/ m.mutated THEN <<>> ELSE
+   << <<"C17", "stalled-objects-not-released-by-cleanup",
+         \A i \in 1..Len(e.st.sess) : \A j \in 1..Len(e.st.sess[i].objs) :
+             LET o == Own(S, e.st.sess[i].objs[j].o) IN
+             o = 0 \/ o \notin DOMAIN m.lastAct \/ e.ms - m.lastAct[o] <= m.rcfg.obj_to + 2,
+         <<e.ms, m.lastAct, m.rcfg.obj_to>> >>,
+      <<"C17", "unfinished-fdt-instances-not-released-by-cleanup",
+         \A i \in 1..Len(e.st.sess) : \A j \in 1..Len(e.st.sess[i].fr) :
+             LET id == e.st.sess[i].fr[j][1] IN
+             e.st.sess[i].fr[j][2] # 0 \/ id \notin DOMAIN m.lastFdt \/ e.ms - m.lastFdt[id] <= m.rcfg.obj_to + 2,
+         <<e.ms, m.lastFdt>> >> >>)
+  \o
+  \* (b) with every time-out at zero and a sleep before the cleanup nothing at all is left
+  (IF ~(m.slept /\ m.rcfg.obj_to = 0) THEN <<>> ELSE
+   << <<"C17", "stalled-objects-not-released-by-cleanup", e.st.n = 0, e.st.n>>,
+      <<"C17", "unfinished-fdt-instances-not-released-by-cleanup",
          \A i \in 1..Len(e.st.sess) : \A j \in 1..Len(e.st.sess[i].fr) : e.st.sess[i].fr[j][2] # 0, e.st.sess>>,
-     <<"C17", "idle-sessions-not-released-by-cleanup", m.rcfg.sess_to # 0 \/ Len(e.st.sess) = 0, Len(e.st.sess)>>,
-     <<"C17", "heap-not-released-by-cleanup", m.rcfg.sess_to # 0 \/ e.st.heap <= m.heap0 + 1048576, <<e.st.heap, m.heap0>> >> >>
+      <<"C17", "idle-sessions-not-released-by-cleanup", m.rcfg.sess_to # 0 \/ Len(e.st.sess) = 0, Len(e.st.sess)>>,
+      <<"C17", "heap-not-released-by-cleanup", m.rcfg.sess_to # 0 \/ e.st.heap <= m.heap0 + 1048576, <<e.st.heap, m.heap0>> >> >>)
 
 Checks(S, m, e) ==
   CASE e.ev = "push"    -> PushChecks(S, m, e)
